@@ -81,7 +81,12 @@ op_s = st.one_of(
     st.tuples(st.just('decorate_call'), st.integers(0, len(HINTS) - 1), st.integers(0, len(VALUES) - 1), st.integers(0, 1)),
     st.tuples(st.just('pkg'), st.sampled_from(NAMES), st.integers(0, 1)),
     st.tuples(st.just('getconf'), st.sampled_from(['a', 'a.b.c', 'b', 'c'])),
+    # hook registration with a skip list: the two variants register sibling packages whose skipped descendants share an ancestor
+    # that is not in the blacklist yet
+    st.tuples(st.just('pkgskip'), st.integers(0, 1)),
+    st.tuples(st.just('pkgskip'), st.integers(0, 1)),
 ).map(list)
+OBSERVED = ['a', 'a.b', 'b', 'shared.x', 'shared.y', 'shared.x.skip.mod', 'shared.y.skip.mod', 'shared.x.other', 'shared.y.other']
 
 
 @st.composite
@@ -99,7 +104,9 @@ def _case(draw, tier):
             st.tuples(st.just('decorate_call'), _hint_index, st.integers(0, len(VALUES) - 1), st.integers(0, 1)),
             st.tuples(st.just('is_bearable'), _hint_index, st.integers(0, len(VALUES) - 1), st.booleans()),
             st.tuples(st.just('die'), _hint_index, st.integers(0, len(VALUES) - 1), st.booleans()),
-            st.tuples(st.just('typehint'), _hint_index, st.booleans())).map(list)
+            st.tuples(st.just('typehint'), _hint_index, st.booleans()),
+            st.tuples(st.just('pkgskip'), st.integers(0, 1)),
+            st.tuples(st.just('pkg'), st.sampled_from(NAMES), st.integers(0, 1))).map(list)
         threads = [[draw(gen_op)] + draw(st.lists(op_s, max_size=1)) for _ in range(2)]
         return {'threads': threads, 'mode': 'syncsweep', 'offset': draw(st.integers(0, 10 ** 6)), 'points': 80 if tier == 'quick' else 400}
     if draw(st.booleans()):
@@ -206,6 +213,13 @@ def _run_ops(ops, shared, keep, U, prefix):
             elif k == 'pkg':
                 beartype_package(prefix + op[1], conf=_conf(op[2], U))
                 out.append(['val', 'ok'])
+            elif k == 'pkgskip':
+                from beartype import BeartypeConf, FrozenDict
+                import typing
+                w = 'xy'[op[1]]
+                beartype_package(prefix + 'shared.' + w, conf=BeartypeConf(
+                    claw_skip_package_names=(prefix + 'shared.' + w + '.skip',), hint_overrides=FrozenDict({U: typing.Union[U, bytes]})))
+                out.append(['val', 'ok'])
             elif k == 'getconf':
                 c = get_package_conf_or_none(prefix + op[1])
                 out.append(['val', None if c is None else sorted((k2, repr(v2)) for k2, v2 in c.kwargs.items()
@@ -234,7 +248,16 @@ def _one_run(threads, schedule, trace_prefix):
     keep = []
     s = sched.Scheduler(len(threads), schedule, trace_prefix, OPCODE_FILES, step_timeout=15.0, sync_files=SYNC_FILES)
     s.run([(lambda ops=ops: _run_ops(ops, shared, keep, U, pfx)) for ops in threads])
+    if not (s.deadlock or s.timeout):
+        s.results = list(s.results) + [_observe(pfx)]
     return s, keep
+
+
+def _observe(pfx):
+    """Final state of the hook registry as seen through the public lookup (which names are hooked at all), appended to the
+    results as one more row: it has to be the state some sequential order leaves behind too."""
+    from beartype.claw._package.clawpkgtrie import get_package_conf_or_none
+    return [['val', [get_package_conf_or_none(pfx + n) is not None for n in OBSERVED]]]
 
 
 def _sequential(threads, order):
@@ -244,7 +267,7 @@ def _sequential(threads, order):
     res = [None] * len(threads)
     for t in order:
         res[t] = _run_ops(threads[t], shared, keep, U, pfx)
-    return res
+    return res + [_observe(pfx)]
 
 
 def _normalise(results):
